@@ -178,9 +178,9 @@ def main(argv=None):
     write_evidence(mod, prop, args.tier, seed, merged, wall, len(new), [v["signature"] for v in known], units)
     c = merged.counters
     print(
-        f"{prop} tier={args.tier} seed={seed} units={merged.units} states={len(merged.states)} "
+        f"{prop} tier={args.tier} seed={seed} units={merged.units} states={getattr(merged, 'states_override', None) or len(merged.states)} "
         f"transitions={c.get('transitions', 0)} evaluations={c.get('evaluations', 0)} "
-        f"validated={c.get('validated', 0)} nontrivial={len(merged.nontrivial)} outcomes={len(merged.outcomes)} "
+        f"validated={c.get('validated', 0)} nontrivial={getattr(merged, 'nontrivial_override', None) or len(merged.nontrivial)} outcomes={len(merged.outcomes)} "
         f"violating_cases={merged.nviol} wall={wall}s"
     )
     if irreproducible and status == 0:
